@@ -1,19 +1,19 @@
 (* C03/Examples.v — non-vacuity: runs that do satisfy the hypotheses of the
    soundness theorems (authn = true) along every path that can set the bit, and
    the adversarial shapes named in the property, evaluated in the model. *)
-From XV Require Import lib.Bytes C03.Model C03.Proofs.
+From XV Require Import lib.Bytes C03.Model C03.Proofs C03.Hist C03.HistProofs.
 
 Definition xa : list mech := [mkMech (str "X-A") KScript].
 Definition adv_xa : list (bool * bytes) := [(true, str "X-A")].
 Definition cfg_xa : ccfg := mkCcfg xa adv_xa (mkCreds [] (str "test") []).
-Definition ok_pay (d : bytes) : pay := mkPay (length (b64_encode d)) (Some d).
+Definition ok_pay (d : bytes) : pay := mkPay (match d with [] => PNone | _ => PText end) (Some d).
 Definition more (r : string) : sres := mkSres true (str r) MNone.
 Definition fin : sres := mkSres false [] MNone.
 
 (* client, PLAIN: one Step, <success/> *)
 Example ex_client_plain :
   negotiate_client (env_of [] []) (mkCcfg [mkMech (str "PLAIN") KPlain] [(true, str "PLAIN")] (mkCreds [] (str "test") []))
-                   [CSuccess (Some (mkPay 0 (Some [])))]
+                   [CSuccess (Some (mkPay PNone (Some [])))]
   = mkRes None [OAuth (str "PLAIN") (str "AHRlc3QA")]
           [EvStep (str "PLAIN") [] (mkSres false (x00 :: str "test" ++ [x00]) MNone)] 1.
 Proof. vm_compute. reflexivity. Qed.
@@ -27,7 +27,7 @@ Proof. vm_compute. reflexivity. Qed.
 (* client: the mechanism completes on a <challenge/>, the <success/> follows (final read) *)
 Example ex_client_completes_on_challenge :
   negotiate_client (env_of [more "a"; fin] []) cfg_xa
-     [CChallenge (Some (ok_pay (str "x"))); CSuccess (Some (mkPay 0 (Some [])))]
+     [CChallenge (Some (ok_pay (str "x"))); CSuccess (Some (mkPay PNone (Some [])))]
   = mkRes None [OAuth (str "X-A") (str "YQ=="); OResponse (str "=")]
           [EvStep (str "X-A") [] (more "a"); EvStep (str "X-A") (str "x") fin] 2.
 Proof. vm_compute. reflexivity. Qed.
@@ -35,7 +35,7 @@ Proof. vm_compute. reflexivity. Qed.
 (* ... and without the <success/> it is rejected: failure, challenge, nothing *)
 Example ex_client_no_success :
   map (fun s => r_err (negotiate_client (env_of [more "a"; fin] []) cfg_xa (CChallenge (Some (ok_pay (str "x"))) :: s)))
-      [[]; [CFailure (Some 10)]; [CChallenge (Some (ok_pay (str "y")))]; [CSuccess (Some (mkPay 1 None))]]
+      [[]; [CFailure (Some 10)]; [CChallenge (Some (ok_pay (str "y")))]; [CSuccess (Some (mkPay PEq None))]]
   = [Some EStream; Some (ESaslFailure 10); Some EUnexpected; Some EB64].
 Proof. vm_compute. reflexivity. Qed.
 
@@ -96,9 +96,9 @@ Example ex_server_closed :
        [SAuth (str "UNKNOWN") (Some creds_pay)];
        [SAuth [] (Some creds_pay)];
        [SAuth (str "X-A") (Some (ok_pay (str "i"))); SAbort true];
-       [SAuth (str "X-A") (Some (mkPay 4 None))];
+       [SAuth (str "X-A") (Some (mkPay PText None))];
        [SAuth (str "X-A") (Some (ok_pay (str "i"))); SOther true];
-       [SAuth (str "PLAIN") (Some (mkPay 1 None))];        (* "=": empty payload, not three fields *)
+       [SAuth (str "PLAIN") (Some (mkPay PEq None))];        (* "=": empty payload, not three fields *)
        [SFailure (Some 1)]; [SNonStart]; []]
   = [Some EUnexpected; Some ENoMech; Some ENoMech; Some ETerminated; Some EB64; Some EUnexpected;
      Some EMechOther; Some (ESaslFailure 1); Some EUnexpected; Some EStream].
@@ -108,12 +108,12 @@ Proof. vm_compute. reflexivity. Qed.
 Example ex_client_sound_instance :
   exists m pre last,
     select_mech xa (parse_adv adv_xa) = Some m /\
-    firstn 2 [CChallenge (Some (ok_pay (str "x"))); CSuccess (Some (mkPay 0 (Some [])))] = pre ++ [last] /\
+    firstn 2 [CChallenge (Some (ok_pay (str "x"))); CSuccess (Some (mkPay PNone (Some [])))] = pre ++ [last] /\
     c_success last /\ Forall c_feedable pre.
 Proof.
-  exists (mkMech (str "X-A") KScript), [CChallenge (Some (ok_pay (str "x")))], (CSuccess (Some (mkPay 0 (Some [])))).
+  exists (mkMech (str "X-A") KScript), [CChallenge (Some (ok_pay (str "x")))], (CSuccess (Some (mkPay PNone (Some [])))).
   split; [vm_compute; reflexivity|]. split; [reflexivity|].
-  split; [exists (mkPay 0 (Some [])), []; split; reflexivity|].
+  split; [exists (mkPay PNone (Some [])), []; split; reflexivity|].
   constructor; [|constructor]. exists (ok_pay (str "x")), (str "x"). split; [left; reflexivity | reflexivity].
 Qed.
 
@@ -122,3 +122,42 @@ Example ex_b64 :
   map b64_encode [str ""; str "f"; str "fo"; str "foo"; str "foob"; str "fooba"; str "foobar"]
   = [str ""; str "Zg=="; str "Zm8="; str "Zm9v"; str "Zm9vYg=="; str "Zm9vYmE="; str "Zm9vYmFy"].
 Proof. vm_compute. reflexivity. Qed.
+
+(* ---------------------------------------------------------------- histories (C03/Hist.v) *)
+
+(* Go's append on the heap: a nil slice grows through capacities 1, 2, 4, so
+   "a", "b" and "c" each allocate an array and "d" is written in place *)
+Example ex_parse_growth :
+  parse_names [] nil_slice [str "a"; str "b"; str "c"; str "d"]
+  = ([[str "a"]; [str "a"; str "b"]; [str "a"; str "b"; str "c"; str "d"]], mkSlice (Some 2) 4 4).
+Proof. vm_compute. reflexivity. Qed.
+
+(* re-slicing to length 0 and appending writes into the array handed out before *)
+Example ex_parse_reuse :
+  let '(h1, d1) := parse_names [] nil_slice [str "X-A"; str "X-B"] in
+  let '(h2, d2) := parse_names h1 d1 [str "PLAIN"] in
+  (sl_read h1 d1, sl_read h2 d1, sl_read h2 d2)
+  = ([str "X-A"; str "X-B"], [str "PLAIN"; str "X-B"], [str "PLAIN"]).
+Proof. vm_compute. reflexivity. Qed.
+
+(* two initiating connections and a receiving one on one feature value, lists
+   parsed before either negotiates: under the source's decode target each
+   authenticates (or not) as it does alone *)
+Definition ex_hist : hist :=
+  mkHist [mkMech (str "X-A") KScript; mkMech (str "PLAIN") KPlain] [] (str "pw")
+    [HClient [(true, str "X-B")] (str "u0") [mkSres false [] MNone] [CSuccess (Some (mkPay PNone (Some [])))];
+     HClient [(true, str "X-A"); (true, str "PLAIN")] (str "u1") [mkSres false (str "r") MNone] [CSuccess (Some (mkPay PNone (Some [])))];
+     HServer [] [true] [SAuth (str "PLAIN") (Some creds_pay)]].
+
+Example ex_hist_run :
+  map (option_map authn) (st_res (hist_run src_target ex_hist [HParse 0; HParse 1; HNeg 2; HNeg 0; HNeg 1]))
+  = [Some false; Some true; Some true] /\
+  map (option_map authn) (st_res (hist_run PCaptured ex_hist [HParse 0; HParse 1; HNeg 2; HNeg 0; HNeg 1]))
+  = [Some true; Some true; Some true].
+Proof. split; vm_compute; reflexivity. Qed.
+
+(* the hypotheses of the history theorems are satisfiable *)
+Example ex_hist_instance :
+  exists r, nth 1 (st_res (hist_run src_target ex_hist [HParse 1; HParse 0; HNeg 1])) None = Some r /\
+            authn r = true /\ In (OAuth (str "X-A") (str "cg==")) (r_out r).
+Proof. eexists. split; [vm_compute; reflexivity|]. split; [reflexivity | left; reflexivity]. Qed.
